@@ -27,7 +27,7 @@ CLASSES = {
 }
 
 ABS = {"np.empty": A.np_empty("row"), "np.zeros": A.np_empty("row"), "np.asarray": A.np_asarray,
-       "bisect.bisect_right": A.bisect_right}
+       "bisect.bisect_right": A.bisect_right, "np.isclose": A.np_isclose, "np.array": A.row_copy, "np.copy": A.row_copy}
 
 # pure spec function (inlined symbolically, executed natively)
 LERP = "def lerp(t0, y0, t1, y1, t):\n    return y0 + (t - t0) / (t1 - t0) * (y1 - y0)\n"
